@@ -33,6 +33,10 @@ class ExonCorrector:
             return alignment_info.read_exons
 
         read_region, new_introns = self.correct_misalignments(alignment_info, read_assignment)
+        if not self.is_valid_intron_chain(new_introns):
+            # e.g. the two sites of a 1-bp intron taken from different sources, or two corrected introns closing
+            # the micro-exon between them: a correction that loses an intron or an exon is discarded
+            return alignment_info.read_exons
         if new_introns:
             corrected_exons = [(read_region[0], new_introns[0][0] - 1)]
             corrected_exons += junctions_from_blocks(new_introns)
@@ -44,6 +48,12 @@ class ExonCorrector:
             # a correction that does not yield sorted non-overlapping exons is discarded
             return alignment_info.read_exons
         return corrected_exons
+
+    @staticmethod
+    def is_valid_intron_chain(introns):
+        # non-empty introns with at least one exon base between consecutive ones
+        return all(i[0] <= i[1] for i in introns) and \
+               all(introns[i][1] + 1 < introns[i + 1][0] for i in range(len(introns) - 1))
 
     @staticmethod
     def is_valid_exon_chain(exons):
